@@ -99,6 +99,8 @@ TRANSPARENT_CALLS = {
     "std::ptr::NonNull::<T>::as_mut",
     "std::ptr::NonNull::<T>::as_ptr",
     "std::clone::Clone::clone",
+    "std::cell::UnsafeCell::<T>::get",
+    "std::cell::UnsafeCell::<T>::get_mut",
 }
 
 
